@@ -152,6 +152,49 @@ theorem findModule_false_split (hr : RegsOK s R R') (i : Stmt) :
     | some d => i.arg ++ "@" ++ d
     | none => i.arg) <;> rfl
 
+/-- In a list with distinct keys a member is found by its key. -/
+theorem find?_key_of_nodup {α β} [BEq β] [LawfulBEq β] (f : α → β) {l : List α} (hnd : (l.map f).Nodup)
+    {x : α} (hx : x ∈ l) : l.find? (fun y => f y == f x) = some x := by
+  induction l with
+  | nil => cases hx
+  | cons y ys ih =>
+    simp only [List.map_cons, List.nodup_cons] at hnd
+    rcases List.mem_cons.mp hx with rfl | hys
+    · simp
+    · have hne : (f y == f x) = false := by
+        rw [beq_eq_false_iff_ne]
+        intro e
+        exact hnd.1 (e ▸ List.mem_map_of_mem hys)
+      rw [List.find?_cons, hne]
+      exact ih hnd.2 hys
+
+/-- `ms.SubModules[name]` of the split registry, for the name of a submodule of the split. -/
+theorem getSub_split (hr : RegsOK s R R') {sb : Mod} (h : sb ∈ s.subs) : R'.getSub sb.name = some sb := by
+  unfold Registry.getSub KeyMap.get?
+  rw [hr.subModules', List.find?_map]
+  have : ((fun kv : String × Nat => kv.1 == sb.name) ∘ fun b : Mod => (b.name, b.seq)) =
+      fun b : Mod => b.name == sb.name := rfl
+  rw [this, find?_key_of_nodup Mod.name hr.sub_names_nodup h]
+  exact byId_split_of_sub hr h
+
+/-- Every include statement of the owner resolves to a submodule of the split, and every
+submodule is the target of one (`RegsOK.owner_includes`, pointwise). -/
+theorem owner_include_resolves (hr : RegsOK s R R') {i : Stmt} (hi : i ∈ s.owner.includes) :
+    ∃ sb ∈ s.subs, R'.findModule true i = some sb := by
+  have h : R'.findModule true i ∈ s.subs.map some := by
+    rw [← hr.owner_includes]
+    exact List.mem_map_of_mem (f := fun i => R'.findModule true i) hi
+  obtain ⟨sb, hsb, e⟩ := List.mem_map.mp h
+  exact ⟨sb, hsb, e.symm⟩
+
+theorem sub_included (hr : RegsOK s R R') {sb : Mod} (h : sb ∈ s.subs) :
+    ∃ i ∈ s.owner.includes, R'.findModule true i = some sb := by
+  have h' : some sb ∈ (s.owner.stmt.all "include").map fun i => R'.findModule true i := by
+    rw [hr.owner_includes]
+    exact List.mem_map_of_mem h
+  obtain ⟨i, hi, e⟩ := List.mem_map.mp h'
+  exact ⟨i, hi, e⟩
+
 theorem owner_imports (ht : TextOK s) : s.owner.imports = s.m.imports :=
   ht.kept "import" (by simp [keptKws])
 
@@ -334,5 +377,332 @@ theorem foldl_walkStep_idem {reg : Registry} {n : Nat} {b : Bool} {L : List Stmt
   | cons j L ih =>
     rw [List.foldl_cons, hk j (List.mem_cons_self ..)]
     exact ih fun i hi => hk i (List.mem_cons_of_mem _ hi)
+
+/-! ### Part 3: a walk of `R` simulated by a walk of `R'` -/
+
+/-- The marks agree on the modules of `R` (the order of the marks differs, and `v'` may hold
+submodule numbers in addition). -/
+def Ia (R : Registry) (v v' : List Nat) : Prop := ∀ x ∈ R.mods, (x.seq ∈ v' ↔ x.seq ∈ v)
+
+/-- The simulation statement for walks of `R` with fuel `n`: an error-free walk of `R` from `x` is
+matched by an error-free walk of `R'` from `repl x` with any sufficient fuel; the marks agree
+afterwards, and when `m` was newly marked then so were all submodules. -/
+def Sim (s : Split) (R R' : Registry) (n : Nat) : Prop :=
+  ∀ (v v' : List Nat) (x : Mod) (w : List Nat) (g : Nat),
+    x ∈ R.mods → includeWalk R n v x = (w, none) → Ia R v v' → unvisited R' v' + 1 ≤ g →
+    ∃ w', includeWalk R' g v' (repl s x) = (w', none) ∧ Ia R w w' ∧
+      (s.m.seq ∈ w → s.m.seq ∉ v → ∀ sb ∈ s.subs, sb.seq ∈ w')
+
+section Sim
+variable {s : Split} {R R' : Registry}
+
+theorem Ia_cons_both {v v' : List Nat} (h : Ia R v v') (k : Nat) : Ia R (k :: v) (k :: v') := by
+  intro x hx
+  simp only [List.mem_cons]
+  rw [h x hx]
+
+theorem Ia_cons_sub (hr : RegsOK s R R') {v v' : List Nat} (h : Ia R v v') {sb : Mod} (hsb : sb ∈ s.subs) :
+    Ia R v (sb.seq :: v') := by
+  intro x hx
+  simp only [List.mem_cons]
+  rw [h x hx]
+  constructor
+  · rintro (e | h)
+    · exact absurd e.symm (hr.sub_seqs_fresh sb hsb x hx)
+    · exact h
+  · exact Or.inr
+
+/-- The walk of a list of import statements, given the simulation of single walks. -/
+theorem simL (hr : RegsOK s R R') {n : Nat} (IH : Sim s R R' n) :
+    ∀ (L : List Stmt) (v v' w : List Nat) (g : Nat),
+      L.foldl (walkStep R n false) (v, none) = (w, none) → Ia R v v' → unvisited R' v' + 1 ≤ g →
+      ∃ w', L.foldl (walkStep R' g false) (v', none) = (w', none) ∧ Ia R w w' ∧
+        (s.m.seq ∈ w → s.m.seq ∉ v → ∀ sb ∈ s.subs, sb.seq ∈ w') := by
+  intro L
+  induction L with
+  | nil =>
+    intro v v' w g h hI _
+    simp only [List.foldl_nil, Prod.mk.injEq, and_true] at h
+    subst h
+    exact ⟨v', rfl, hI, fun h1 h2 => absurd h1 h2⟩
+  | cons i L ih =>
+    intro v v' w g h hI hg
+    obtain ⟨im, v1, hf, hw, hrest⟩ := foldl_walkStep_cons_ok h
+    have him := findModule_false_mem hf
+    obtain ⟨w1', hw1, hI1, hc1⟩ := IH v v' im v1 g him hw hI hg
+    have hmono : ∀ y, y ∈ v' → y ∈ w1' := by
+      intro y hy
+      have := includeWalk_visited_mono R' g v' (repl s im) y hy
+      rw [hw1] at this
+      exact this
+    have hg1 : unvisited R' w1' + 1 ≤ g := by
+      have := unvisited_mono R' v' w1' hmono
+      omega
+    obtain ⟨w', hw', hI', hc'⟩ := ih v1 w1' w g hrest hI1 hg1
+    refine ⟨w', ?_, hI', ?_⟩
+    · rw [foldl_walkStep_cons_of L (by rw [findModule_false_split hr, hf]; rfl) hw1]
+      exact hw'
+    · intro hmw hmv sb hsb
+      by_cases hm1 : s.m.seq ∈ v1
+      · have := foldl_walkStep_mono R' g false L (w1', none) sb.seq (hc1 hm1 hmv sb hsb)
+        rw [hw'] at this
+        exact this
+      · exact hc' hmw hm1 sb hsb
+
+/-- **The simulation.** -/
+theorem sim (ht : TextOK s) (hr : RegsOK s R R') : ∀ n, Sim s R R' n := by
+  intro n
+  induction n with
+  | zero =>
+    intro v v' x w g _ hw
+    rw [includeWalk_zero] at hw
+    cases hw
+  | succ n IH =>
+    intro v v' x w g hx hw hI hg
+    obtain ⟨g0, rfl⟩ : ∃ g0, g = g0 + 1 := ⟨g - 1, by omega⟩
+    rw [includeWalk_succ] at hw
+    rw [includeWalk_succ, repl_seq hr]
+    by_cases hc : x.seq ∈ v
+    · rw [if_pos (by simpa using hc)] at hw
+      cases hw
+      rw [if_pos (by simpa using (hI x hx).mpr hc)]
+      exact ⟨v', rfl, hI, fun h1 h2 => absurd h1 h2⟩
+    · have hc' : x.seq ∉ v' := fun h => hc ((hI x hx).mp h)
+      rw [if_neg (by simpa using hc), includes_nil hr hx, List.foldl_nil] at hw
+      rw [if_neg (by simpa using hc')]
+      have hlt := unvisited_cons_lt R' v' (repl s x) (repl_mem hr hx) (by rw [repl_seq hr]; simpa using hc')
+      rw [repl_seq hr] at hlt
+      by_cases hxm : x.seq = s.m.seq
+      · have hxeq := eq_m_of_seq hr hx hxm
+        subst hxeq
+        rw [repl_m, owner_imports ht]
+        have hidem := foldl_walkStep_idem hw
+        -- one walk of `m`'s import statements in `R'`: the first does what `R` does, a later one nothing
+        have stepL : ∀ cur g1, (Ia R (s.m.seq :: v) cur ∨ Ia R w cur) → unvisited R' cur + 1 ≤ g1 →
+            ∃ cur', s.m.imports.foldl (walkStep R' g1 false) (cur, none) = (cur', none) ∧ Ia R w cur' := by
+          intro cur g1 hP hg1
+          rcases hP with hP | hP
+          · obtain ⟨c, h1, h2, _⟩ := simL hr IH _ _ _ _ g1 hw hP hg1
+            exact ⟨c, h1, h2⟩
+          · obtain ⟨c, h1, h2, _⟩ := simL hr IH _ _ _ _ g1 hidem hP hg1
+            exact ⟨c, h1, h2⟩
+        -- the walk of the owner's include statements
+        have incl : ∀ (incs : List Stmt) (sbs : List Mod) (cur : List Nat),
+            incs.map (R'.findModule true) = sbs.map some → (∀ sb ∈ sbs, sb ∈ s.subs) →
+            (Ia R (s.m.seq :: v) cur ∨ Ia R w cur) → (∀ y, y ∈ s.m.seq :: v' → y ∈ cur) →
+            ∃ cur', incs.foldl (walkStep R' g0 true) (cur, none) = (cur', none) ∧
+              (Ia R (s.m.seq :: v) cur' ∨ Ia R w cur') ∧ (∀ y, y ∈ cur → y ∈ cur') ∧
+              (∀ sb ∈ sbs, sb.seq ∈ cur') := by
+          intro incs
+          induction incs with
+          | nil =>
+            intro sbs cur hmap _ hP hsub
+            cases sbs with
+            | nil => exact ⟨cur, rfl, hP, fun y hy => hy, fun sb h => by cases h⟩
+            | cons _ _ => simp at hmap
+          | cons i incs ih =>
+            intro sbs cur hmap hsbs hP hsub
+            cases sbs with
+            | nil => simp at hmap
+            | cons sb sbs =>
+              simp only [List.map_cons, List.cons.injEq] at hmap
+              obtain ⟨hfi, hmap'⟩ := hmap
+              have hsb : sb ∈ s.subs := hsbs sb (List.mem_cons_self ..)
+              have hcur : unvisited R' cur ≤ unvisited R' (s.m.seq :: v') := unvisited_mono R' _ _ hsub
+              have hwalk : ∃ cur1, includeWalk R' g0 cur sb = (cur1, none) ∧
+                  (Ia R (s.m.seq :: v) cur1 ∨ Ia R w cur1) ∧ (∀ y, y ∈ cur → y ∈ cur1) ∧ sb.seq ∈ cur1 := by
+                by_cases hin : sb.seq ∈ cur
+                · obtain ⟨g1, rfl⟩ : ∃ g1, g0 = g1 + 1 := ⟨g0 - 1, by omega⟩
+                  exact ⟨cur, includeWalk_of_mem R' g1 hin, hP, fun y hy => hy, hin⟩
+                · have hlt2 := unvisited_cons_lt R' cur sb (sub_mem hr hsb) (by simpa using hin)
+                  obtain ⟨g1, rfl⟩ : ∃ g1, g0 = g1 + 1 := ⟨g0 - 1, by omega⟩
+                  have hP2 : Ia R (s.m.seq :: v) (sb.seq :: cur) ∨ Ia R w (sb.seq :: cur) :=
+                    hP.imp (Ia_cons_sub hr · hsb) (Ia_cons_sub hr · hsb)
+                  obtain ⟨cur1, h1, h2⟩ := stepL (sb.seq :: cur) g1 hP2 (by omega)
+                  refine ⟨cur1, ?_, Or.inr h2, ?_, ?_⟩
+                  · rw [includeWalk_succ, if_neg (by simpa using hin), sub_includes hr hsb, List.foldl_nil,
+                      sub_imports ht hsb]
+                    exact h1
+                  · intro y hy
+                    have := foldl_walkStep_mono R' g1 false s.m.imports (sb.seq :: cur, none) y
+                      (List.mem_cons_of_mem _ hy)
+                    rw [h1] at this
+                    exact this
+                  · have := foldl_walkStep_mono R' g1 false s.m.imports (sb.seq :: cur, none) sb.seq
+                      (List.mem_cons_self ..)
+                    rw [h1] at this
+                    exact this
+              obtain ⟨cur1, hw1, hP1, hm1, hsb1⟩ := hwalk
+              obtain ⟨cur', hf', hP', hm', hall'⟩ := ih sbs cur1 hmap'
+                (fun b hb => hsbs b (List.mem_cons_of_mem _ hb)) hP1 (fun y hy => hm1 y (hsub y hy))
+              refine ⟨cur', ?_, hP', fun y hy => hm' y (hm1 y hy), ?_⟩
+              · rw [foldl_walkStep_cons_of incs hfi hw1]
+                exact hf'
+              · intro b hb
+                rcases List.mem_cons.mp hb with rfl | hb'
+                · exact hm' _ hsb1
+                · exact hall' b hb'
+        obtain ⟨cur', hf', hP', hm', hall'⟩ := incl s.owner.includes s.subs (s.m.seq :: v')
+          hr.owner_includes (fun _ h => h) (Or.inl (Ia_cons_both hI _)) (fun y hy => hy)
+        have hg' : unvisited R' cur' + 1 ≤ g0 := by
+          have := unvisited_mono R' _ _ hm'
+          omega
+        obtain ⟨w', h1, h2⟩ := stepL cur' g0 hP' hg'
+        refine ⟨w', ?_, h2, ?_⟩
+        · rw [hf']
+          exact h1
+        · intro _ _ sb hsb
+          have := foldl_walkStep_mono R' g0 false s.m.imports (cur', none) sb.seq (hall' sb hsb)
+          rw [h1] at this
+          exact this
+      · rw [repl_of_ne hxm, includes_nil hr hx, List.foldl_nil]
+        obtain ⟨w', hw', hI', hcc⟩ := simL hr IH x.imports (x.seq :: v) (x.seq :: v') w g0 hw
+          (Ia_cons_both hI _) (by omega)
+        refine ⟨w', hw', hI', ?_⟩
+        intro hmw hmv
+        apply hcc hmw
+        simp only [List.mem_cons, not_or]
+        exact ⟨fun e => hxm e.symm, hmv⟩
+
+end Sim
+
+/-! ### Part 4: `linkAll` -/
+
+/-- The step of the fold in `linkAll` (the same term, named). -/
+def linkStep (reg : Registry) (acc : List Nat × List Err) (m : Mod) : List Nat × List Err :=
+  ((includeWalk reg (reg.mods.length + 1) acc.1 m).1,
+    match (includeWalk reg (reg.mods.length + 1) acc.1 m).2 with
+    | some e => acc.2 ++ [e]
+    | none => acc.2)
+
+theorem linkAll_eq (reg : Registry) :
+    linkAll reg =
+      (sortBy (fun (a b : Mod) => a.fullName < b.fullName) reg.distinctModules).foldl (linkStep reg) ([], []) := rfl
+
+theorem insertBy_map {α β} (f : α → β) (lt : β → β → Bool) (lt' : α → α → Bool) (x : α) (l : List α)
+    (h : ∀ y ∈ l, lt (f x) (f y) = lt' x y) : insertBy lt (f x) (l.map f) = (insertBy lt' x l).map f := by
+  induction l with
+  | nil => rfl
+  | cons y ys ih =>
+    simp only [List.map_cons, insertBy]
+    rw [h y (List.mem_cons_self ..)]
+    split
+    · rfl
+    · rw [List.map_cons, ih fun z hz => h z (List.mem_cons_of_mem _ hz)]
+
+/-- Sorting commutes with a map that respects the order on the members of the list. -/
+theorem sortBy_map {α β} (f : α → β) (lt : β → β → Bool) (lt' : α → α → Bool) (l : List α)
+    (h : ∀ x ∈ l, ∀ y ∈ l, lt (f x) (f y) = lt' x y) : sortBy lt (l.map f) = (sortBy lt' l).map f := by
+  induction l with
+  | nil => rfl
+  | cons z zs ih =>
+    have e1 : sortBy lt ((z :: zs).map f) = insertBy lt (f z) (sortBy lt (zs.map f)) := rfl
+    have e2 : sortBy lt' (z :: zs) = insertBy lt' z (sortBy lt' zs) := rfl
+    rw [e1, e2, ih fun x hx y hy => h x (List.mem_cons_of_mem _ hx) y (List.mem_cons_of_mem _ hy)]
+    apply insertBy_map
+    intro y hy
+    exact h z (List.mem_cons_self ..) y (List.mem_cons_of_mem _ ((mem_sortBy _ _ _).mp hy))
+
+theorem linkStep_errs_nil {reg : Registry} {acc : List Nat × List Err} {x : Mod}
+    (h : (linkStep reg acc x).2 = []) :
+    acc.2 = [] ∧ includeWalk reg (reg.mods.length + 1) acc.1 x = ((linkStep reg acc x).1, none) := by
+  unfold linkStep at h ⊢
+  cases hw : includeWalk reg (reg.mods.length + 1) acc.1 x with
+  | mk v e =>
+    rw [hw] at h
+    cases e with
+    | none => exact ⟨h, rfl⟩
+    | some e => simp at h
+
+theorem foldl_linkStep_errs_nil {reg : Registry} {l : List Mod} {acc : List Nat × List Err}
+    (h : (l.foldl (linkStep reg) acc).2 = []) : acc.2 = [] := by
+  induction l generalizing acc with
+  | nil => exact h
+  | cons x l ih => exact (linkStep_errs_nil (ih h)).1
+
+theorem foldl_linkStep_mono (reg : Registry) (l : List Mod) (acc : List Nat × List Err) (y : Nat)
+    (hy : y ∈ acc.1) : y ∈ (l.foldl (linkStep reg) acc).1 := by
+  apply foldl_inv (fun acc : List Nat × List Err => y ∈ acc.1) _ _ _ hy
+  intro a x _ ha
+  exact includeWalk_visited_mono _ _ _ _ _ ha
+
+/-- Every start of `linkAll` is marked in the end. -/
+theorem foldl_linkStep_roots (reg : Registry) (l : List Mod) (acc : List Nat × List Err) (x : Mod)
+    (hx : x ∈ l) : x.seq ∈ (l.foldl (linkStep reg) acc).1 := by
+  induction l generalizing acc with
+  | nil => cases hx
+  | cons z l ih =>
+    rw [List.foldl_cons]
+    rcases List.mem_cons.mp hx with rfl | hx'
+    · exact foldl_linkStep_mono reg l _ _ (includeWalk_start_mem reg _ _ _)
+    · exact ih _ hx'
+
+section Top
+variable {s : Split} {R R' : Registry}
+
+/-- The fold of `linkAll` over the same starts (up to `repl`) in the two registries. -/
+theorem top_sim (ht : TextOK s) (hr : RegsOK s R R') :
+    ∀ (l : List Mod) (acc acc' : List Nat × List Err), (∀ x ∈ l, x ∈ R.mods) → acc'.2 = [] →
+      Ia R acc.1 acc'.1 → (s.m.seq ∈ acc.1 → ∀ sb ∈ s.subs, sb.seq ∈ acc'.1) →
+      (l.foldl (linkStep R) acc).2 = [] →
+      ((l.map (repl s)).foldl (linkStep R') acc').2 = [] ∧
+      Ia R (l.foldl (linkStep R) acc).1 ((l.map (repl s)).foldl (linkStep R') acc').1 ∧
+      (s.m.seq ∈ (l.foldl (linkStep R) acc).1 →
+        ∀ sb ∈ s.subs, sb.seq ∈ ((l.map (repl s)).foldl (linkStep R') acc').1) := by
+  intro l
+  induction l with
+  | nil => intro acc acc' _ he hI hb _; exact ⟨he, hI, hb⟩
+  | cons x l ih =>
+    intro acc acc' hl he hI hb h
+    rw [List.foldl_cons] at h
+    rw [List.foldl_cons, List.map_cons, List.foldl_cons]
+    obtain ⟨_, hw⟩ := linkStep_errs_nil (foldl_linkStep_errs_nil h)
+    have hx := hl x (List.mem_cons_self ..)
+    obtain ⟨w', hw', hI', hc⟩ := sim ht hr _ acc.1 acc'.1 x _ (R'.mods.length + 1) hx hw hI
+      (by have := unvisited_le R' acc'.1; omega)
+    have hstep : linkStep R' acc' (repl s x) = (w', []) := by
+      simp only [linkStep, hw', he]
+    rw [hstep]
+    apply ih _ _ (fun y hy => hl y (List.mem_cons_of_mem _ hy)) rfl hI' _ h
+    intro hm sb hsb
+    by_cases hm0 : s.m.seq ∈ acc.1
+    · have := includeWalk_visited_mono R' (R'.mods.length + 1) acc'.1 (repl s x) sb.seq (hb hm0 sb hsb)
+      rw [hw'] at this
+      exact this
+    · exact hc hm hm0 sb hsb
+
+/-- **The linking stage of a split registry.**  When the unsplit registry links without error, so
+does the split one; the linked sets agree on the modules of `R`, and `m` and all submodules are
+linked. -/
+theorem linkAll_split (s : Split) (R R' : Registry) (ht : TextOK s) (hr : RegsOK s R R')
+    (h : (linkAll R).2 = []) :
+    (linkAll R').2 = [] ∧ LinkOK s R (linkAll R).1 (linkAll R').1 := by
+  have e1 := linkAll_eq R
+  have e2 : linkAll R' =
+      ((sortBy (fun (a b : Mod) => a.fullName < b.fullName) R.distinctModules).map (repl s)).foldl
+        (linkStep R') ([], []) := by
+    rw [linkAll_eq R', distinctModules_split hr]
+    congr 1
+    apply sortBy_map
+    intro x hx y hy
+    rw [repl_fullName ht hr (distinctModules_mem R x hx), repl_fullName ht hr (distinctModules_mem R y hy)]
+  rw [e1] at h
+  rw [e1, e2]
+  have hroots : ∀ x ∈ sortBy (fun (a b : Mod) => a.fullName < b.fullName) R.distinctModules, x ∈ R.mods :=
+    fun x hx => distinctModules_mem R x ((mem_sortBy _ _ _).mp hx)
+  obtain ⟨h1, h2, h3⟩ := top_sim ht hr _ ([], []) ([], []) hroots rfl
+    (fun _ _ => Iff.rfl) (fun h => by cases h) h
+  have hm : s.m.seq ∈ ((sortBy (fun (a b : Mod) => a.fullName < b.fullName) R.distinctModules).foldl
+      (linkStep R) ([], [])).1 :=
+    foldl_linkStep_roots R _ _ s.m ((mem_sortBy _ _ _).mpr (m_distinct hr))
+  refine ⟨h1, ⟨?_, ?_, ?_⟩⟩
+  · intro x hx
+    rw [Bool.eq_iff_iff]
+    simpa using h2 x hx
+  · simpa using hm
+  · intro sb hsb
+    simpa using h3 hm sb hsb
+
+end Top
 
 end Goyang.Lemmas.IncludeLink
